@@ -7,7 +7,7 @@ PROP = 'C03'
 VARIANTS = ['asan']
 CLASSES = ['a', 'n', 'x', 'e', '0', '7', '8', 'f', ' ', '\t', '\n', '\\', '"', "'", '$', '{', '}', ':', '-', '#', '/', '*', '\x80', '\xff']
 ENVVALS = {'set': 'VAL', 'empty': '', 'meta': 'm"\\${q}#\n\'/*x*/ ', 'mid': 'm' * 45, 'long': ('0123456789' * 30)[:293] + 'END'}
-FRAMES = 10
+FRAMES = 11
 PER_CASE = 40
 RULE = ('literal bodies enumerated exhaustively up to length N over %d byte-class representatives, in double-quoted, single-quoted and '
         'unquoted form, then random longer bodies; framed as  s = <literal> [comment]  or  l = {<literal>[, <literal>]}, with LF or CRLF line ends or a comment glued to the literal; bodies with a '
@@ -34,6 +34,8 @@ def frame(fr, lit):
         return 's = %s#glued ${z} "\n' % lit                # a comment directly behind the literal
     if fr == 9:
         return 'l = {%s#c\n, %s/*c*/}\n' % (lit, lit)
+    if fr == 10:
+        return 's = %s' % lit                             # the literal is the very last thing in the input
     return 'l = { %s , %s }\n' % (lit, lit)
 
 
@@ -156,7 +158,7 @@ def script(spec):
                 L.append('setenv %s %s' % (hx(nm), hx(ENVVALS[envmode])))
         L.append('init 0 0 0')
         L.append('parse_buf 0 %s' % hx(frame(fr, model_lex.render(form, body))))
-        if fr < 4 or fr in (6, 8):
+        if fr < 4 or fr in (6, 8, 10):
             L.append('get 0 str %s 0' % hx('s'))
             L.append('get 0 size %s 0' % hx('s'))
         else:
